@@ -1,7 +1,7 @@
 use crate::interface::config::GenerateConfig;
 use crate::models::{CommandInfo, StructInfo};
 use serde::{Deserialize, Serialize};
-use std::collections::HashMap;
+use std::collections::{BTreeMap, HashMap};
 use std::fs;
 use std::path::{Path, PathBuf};
 use thiserror::Error;
@@ -220,7 +220,7 @@ impl GenerationCache {
         struct ConfigHashData<'a> {
             validation_library: &'a str,
             include_private: bool,
-            type_mappings: Option<&'a HashMap<String, String>>,
+            type_mappings: Option<BTreeMap<&'a str, &'a str>>,
             default_parameter_case: &'a str,
             default_field_case: &'a str,
         }
@@ -228,7 +228,13 @@ impl GenerationCache {
         let hash_data = ConfigHashData {
             validation_library: &config.validation_library,
             include_private: config.include_private.unwrap_or(false),
-            type_mappings: config.type_mappings.as_ref(),
+            // Sorted: HashMap iteration order differs from process to process
+            type_mappings: config.type_mappings.as_ref().map(|mappings| {
+                mappings
+                    .iter()
+                    .map(|(k, v)| (k.as_str(), v.as_str()))
+                    .collect()
+            }),
             default_parameter_case: &config.default_parameter_case,
             default_field_case: &config.default_field_case,
         };
